@@ -72,6 +72,21 @@ pub fn spec_late() -> ArchiveSpec {
 
 const ADD_NAMES: [&str; 3] = ["new\\a.txt", "new\\b.bin", "c.dat"];
 
+pub fn colliding_names() -> Vec<String> {
+    use vcheck::oracle::refcrypt as rc;
+    let target = rc::hash_string(b"new\\a.txt", 0) & 15;
+    let mut v = vec![];
+    let mut i = 0u32;
+    while v.len() < 3 {
+        let n = format!("col\\k{i}.dat");
+        if rc::hash_string(n.as_bytes(), 0) & 15 == target {
+            v.push(n);
+        }
+        i += 1;
+    }
+    v
+}
+
 /// name pool of a history: names of the disks' files first (so small indices are present files)
 pub fn pool(disks: &[Disk]) -> Vec<String> {
     let mut v: Vec<String> = vec![];
@@ -91,6 +106,11 @@ pub fn pool(disks: &[Disk]) -> Vec<String> {
     }
     for n in ADD_NAMES {
         v.push(n.to_string());
+    }
+    // names whose home slot in a 16-slot hash table is the one of "new\\a.txt" (found by reference
+    // hashing): adding, removing and replacing them exercises probe chains and deletion markers
+    for n in colliding_names() {
+        v.push(n);
     }
     for n in ["absent.txt", "dir\\none.bin", "", "(listfile)", "(attributes)", "*"] {
         v.push(n.to_string());
@@ -795,6 +815,14 @@ pub fn writable_history(rng: &mut impl Rng, specs: Vec<ArchiveSpec>) -> History 
     }
     while few.len() < k {
         few.push(rng.random_range(0..total) as u16);
+    }
+    // every other history works on names that share one home slot of the 16-slot table
+    if rng.random_range(0..2) == 0 {
+        few.clear();
+        few.push(names.iter().position(|x| x == "new\\a.txt").unwrap_or(0) as u16);
+        for n in colliding_names() {
+            few.push(names.iter().position(|x| *x == n).unwrap_or(0) as u16);
+        }
     }
     let pick = |rng: &mut _, few: &[u16]| NameRef::Pool(few[Rng::random_range(rng, 0..few.len())]);
     let versions: &[u32] = &[1, 1, 2, 2, 3, 4];
